@@ -4,7 +4,7 @@
    spec_case = S: the property (same verdicts / matches whichever optimisation
    is in effect) evaluated on the implementation's own output. *)
 From Coq Require Import List ZArith Bool String.
-From YV Require Import Gen.FoldGen Opt.Fold Gen.BoundsGen Opt.Bounds Gen.FastScanGen Opt.FastScan.
+From YV Require Import Gen.FoldGen Opt.Fold Gen.BoundsGen Opt.Bounds Gen.FastScanGen Opt.FastScan Gen.HoistGen Opt.Hoist.
 Import ListNotations.
 Local Open Scope Z_scope.
 
@@ -29,7 +29,13 @@ Inductive case :=
 | KR53 (v r : Z)                                  (* (v as f64) as integer *)
 | KF64 (o : aop) (a b : Z) (r : option Z)         (* (a as f64) OP (b as f64); None = not finite *)
 | KBounds (c : cexp) (has_obs : bool) (ob : fsb) (oh : hcons) (runs : list brun)
-| KScan (rules : list fcond) (bits : list bool) (fixed_len : list bool) (dumps : list sdump).
+| KScan (rules : list fcond) (bits : list bool) (fixed_len : list bool) (dumps : list sdump)
+(* an `or` of `x matches /re/` operands: per operand the identity of its left
+   operand (the key a sound grouping must respect), the verdict of the operand
+   evaluated alone (same bindings), and the verdict of the whole `or` *)
+| KReSet (lhs_ids : list nat) (alone : list bool) (verdict : bool)
+(* a condition with loops, compiled without / with condition_optimization: verdict per buffer *)
+| KHoist (unoptimised optimised : list bool).
 
 (* ------------------------------------------------------------ K *)
 Definition lookup {A} (l : list (option A)) : nat -> option A := fun n => nth n l None.
@@ -105,6 +111,12 @@ Definition check_case (k : case) : bool :=
       end
   | KBounds c h ob oh runs => bounds_k c h ob oh runs
   | KScan rules bits fl dumps => scan_k rules bits fl dumps
+  | KReSet ids alone v =>
+      (* the grouping model with the identity of the left operand as key; regexp i is the one of operand i *)
+      let ops := map (fun il => mkMop (Z.of_nat (snd il)) (snd il) (fst il)) (combine (seq 0 (List.length ids)) ids) in
+      let mt := fun l r => Nat.eqb l (nth r ids 0%nat) && nth r alone false in
+      Bool.eqb (or_grouped mt ops) v
+  | KHoist _ _ => true
   end.
 
 (* ------------------------------------------------------------ S *)
@@ -148,4 +160,6 @@ Definition spec_case (k : case) : bool :=
       forallb (fun r => Bool.eqb (br_main r) (br_twin r) &&
                         (negb h || negb (br_twin r) || (contains ob (br_n r) && is_satisfied oh (br_data r)))) runs
   | KScan _ _ fl dumps => scan_s fl dumps
+  | KReSet _ alone v => Bool.eqb v (existsb (fun b => b) alone)
+  | KHoist u o => blist_eqb u o
   end.
